@@ -191,7 +191,7 @@ package boltz
 //@ immutable H.boltz.IndexingContext.Ctx.val
 // every constraint of the context's store is notified once, in order, after the parent context's constraints
 //@ func (*IndexingContext).ProcessBeforeUpdate
-//@   props C03 C04 C15
+//@   props C03 C04 C15 C16
 //@   nosafety
 //@   modifies *, cxN, cxWho, cxPhase, cxCtx
 //@   ensures[log-only-grows] cxPrefixKept()
@@ -200,7 +200,7 @@ package boltz
 //@   ensures[parent-constraints-first] !holderFailed[ctx.ErrHolder] && ctx.Parent != nil ==> cxN >= old(cxN) + len(ctx.Indexer.constraints) + len(ctx.Parent.Indexer.constraints) && cxSegment(cxN - len(ctx.Indexer.constraints), ctx.Parent.Indexer.constraints, len(ctx.Parent.Indexer.constraints), 1, ref(ctx.Parent))
 //@   invariant 1: cxPrefixKept() && (old(holderFailed[ctx.ErrHolder]) ==> holderFailed[ctx.ErrHolder]) && (!holderFailed[ctx.ErrHolder] ==> cxN >= old(cxN) + rangeindex + 1 && cxSegment(cxN, ctx.Indexer.constraints, rangeindex + 1, 1, ref(ctx)) && (ctx.Parent != nil ==> cxN >= old(cxN) + rangeindex + 1 + len(ctx.Parent.Indexer.constraints) && cxSegment(cxN - (rangeindex + 1), ctx.Parent.Indexer.constraints, len(ctx.Parent.Indexer.constraints), 1, ref(ctx.Parent))))
 //@ func (*IndexingContext).ProcessAfterUpdate
-//@   props C03 C04 C15
+//@   props C03 C04 C15 C16
 //@   nosafety
 //@   modifies *, cxN, cxWho, cxPhase, cxCtx
 //@   ensures[log-only-grows] cxPrefixKept()
@@ -209,7 +209,7 @@ package boltz
 //@   ensures[parent-constraints-first] !holderFailed[ctx.ErrHolder] && ctx.Parent != nil ==> cxN >= old(cxN) + len(ctx.Indexer.constraints) + len(ctx.Parent.Indexer.constraints) && cxSegment(cxN - len(ctx.Indexer.constraints), ctx.Parent.Indexer.constraints, len(ctx.Parent.Indexer.constraints), 2, ref(ctx.Parent))
 //@   invariant 1: cxPrefixKept() && (old(holderFailed[ctx.ErrHolder]) ==> holderFailed[ctx.ErrHolder]) && (!holderFailed[ctx.ErrHolder] ==> cxN >= old(cxN) + rangeindex + 1 && cxSegment(cxN, ctx.Indexer.constraints, rangeindex + 1, 2, ref(ctx)) && (ctx.Parent != nil ==> cxN >= old(cxN) + rangeindex + 1 + len(ctx.Parent.Indexer.constraints) && cxSegment(cxN - (rangeindex + 1), ctx.Parent.Indexer.constraints, len(ctx.Parent.Indexer.constraints), 2, ref(ctx.Parent))))
 //@ func (*IndexingContext).ProcessBeforeDelete
-//@   props C03 C04 C15 C06
+//@   props C03 C04 C15 C06 C16
 //@   nosafety
 //@   modifies *, cxN, cxWho, cxPhase, cxCtx
 //@   ensures[log-only-grows] cxPrefixKept()
@@ -222,7 +222,7 @@ package boltz
 //@   pure
 //@   ensures[a-context-for-this-row] result != nil && fresh(result) && result.IsCreate == isCreate && result.Ctx == ctx && str(result.RowId) == id && result.ErrHolder == holder
 //@ func (*BaseStore).newIndexingContext
-//@   props C03 C04 C15
+//@   props C03 C04 C15 C16
 //@   nosafety
 //@   modifies *
 //@   ensures[a-context-for-this-row] result != nil && fresh(result) && result.IsCreate == isCreate && result.Ctx == ctx && str(result.RowId) == id && result.ErrHolder == holder
